@@ -285,7 +285,7 @@ pub fn local_scenario(r: &mut Rng) -> Scenario {
         push_zone(&mut zones, &mut specs, gz);
     }
     let qname = crate::streams::zone::query_name(r, &owners, &DomainName::root_domain());
-    let qt: u16 = *r.pick(&[1u16, 1, 1, 28, 5, 2, 16, 255, 15, 6]);
+    let qt: u16 = *r.pick(&[1u16, 1, 1, 28, 5, 2, 16, 255, 15, 6, 252, 253, 254]);
     #[allow(unused_mut)]
     let question = Question { name: qname.clone(), qtype: QueryType::from(qt), qclass: QueryClass::Record(RecordClass::IN) };
     // cache: records for the question name / owners, possibly conflicting with zone data
@@ -317,6 +317,10 @@ pub fn local_scenario(r: &mut Rng) -> Scenario {
     reply.answers.push(rr(&qname, data_for(r, qt), 60));
     if r.chance(1, 3) {
         reply.header.rcode = Rcode::NameError;
+        reply.answers.clear();
+    }
+    if (252..=254).contains(&qt) {
+        // no record is of a transfer / mail-agent "type": an upstream has nothing to list (D7)
         reply.answers.clear();
     }
     let addr = match &m {
@@ -395,6 +399,49 @@ pub fn chain_scenario(r: &mut Rng) -> Scenario {
     Scenario { mode: m, zone_specs: vec![spec], zones, cache_rrs, script, question, expect: None, family: "chain" }
 }
 
+/// an authoritative zone with an alias whose target lies beneath one of its own delegations: the zone
+/// answers the alias itself (the CNAME record leads the answer), only the target is resolved elsewhere
+fn alias_into_delegation_scenario(r: &mut Rng) -> Scenario {
+    let mut so = soa(r);
+    so.minimum = 0;
+    let apex = nm("corp.example.");
+    let mut spec = format!("{}!{}", c::name(&apex), soa_text(&so));
+    let mut zone = Zone::new(apex.clone(), Some(so));
+    let ns_host = nm("ns.elsewhere.test.");
+    let wiki = nm("wiki.corp.example.");
+    let target = nm("wiki.eng.corp.example.");
+    for (n, d) in [
+        (nm("eng.corp.example."), RecordTypeWithData::NS { nsdname: ns_host.clone() }),
+        (wiki.clone(), RecordTypeWithData::CNAME { cname: target.clone() }),
+    ] {
+        spec.push_str(&format!("!i:{}", c::rr(&rr(&n, d.clone(), 300))));
+        zone.insert(&n, d, 300);
+    }
+    // the delegated server's address is known locally (a hosts-style root zone)
+    let root = DomainName::root_domain();
+    let mut hz = Zone::new(root.clone(), None);
+    let addr = Ipv4Addr::new(10, 9, 9, 2);
+    hz.insert(&ns_host, RecordTypeWithData::A { address: addr }, 5);
+    let hspec = format!("{}!-!i:{}", c::name(&root), c::rr(&rr(&ns_host, RecordTypeWithData::A { address: addr }, 5)));
+    let mut zones = Zones::new();
+    zones.insert_merge(zone);
+    zones.insert_merge(hz);
+    let qt = *r.pick(&[1u16, 1, 16]);
+    let question = Question { name: wiki.clone(), qtype: QueryType::from(qt), qclass: QueryClass::Record(RecordClass::IN) };
+    let mut script = Vec::new();
+    for qn in [&target, &wiki] {
+        // the delegated server knows the target; asked about the alias name it would (wrongly) hand out an
+        // address directly - the resolver must never ask it that
+        let q = Question { name: qn.clone(), qtype: question.qtype, qclass: question.qclass };
+        let mut m = reply_to(&q);
+        m.header.is_authoritative = true;
+        m.answers.push(rr(qn, data_for(r, qt), 60));
+        script.push(Entry { addr: IpAddr::V4(addr), tcp: false, qname: qn.clone(), qtype: qt, delay_ms: 3, reply: Reply::Msg { m, same_id: true } });
+    }
+    let mode = if r.chance(1, 3) { Mode::Auth } else { Mode::Rec(ProtocolMode::OnlyV4, 53) };
+    Scenario { mode, zone_specs: vec![spec, hspec], zones, cache_rrs: Vec::new(), script, question, expect: None, family: "local" }
+}
+
 /// the shape of open finding F11 (C01-K1), exhibited on every run: a forwarded question whose upstream
 /// answer is an alias into a LOCAL authoritative zone together with a record for that local name
 fn f11_scenario(r: &mut Rng) -> Scenario {
@@ -434,6 +481,8 @@ struct Universe {
     ns_at_cut_is_referral: bool,
     /// glue records are served with TTL 0 ("use, do not cache"): open finding C07-K1
     glue_ttl0: bool,
+    /// answers are truncated over UDP and complete only over TCP
+    tc_over_udp: bool,
 }
 
 impl Universe {
@@ -630,6 +679,27 @@ fn gen_universe(r: &mut Rng, single_ns: bool, dual: bool) -> Universe {
         let s = SOA { mname: servers[0].0.clone(), rname: nm("admin."), serial: 1, refresh: 2, retry: 3, expire: 4, minimum: 60 };
         zones.push(UZone { apex: apex.clone(), zone: Zone::new(apex.clone(), Some(s)), servers });
     }
+    // sometimes two sibling zones host each other's nameservers (a. served by a host under b., b. by one
+    // under a.): resolvable only through the glue their common parent hands out
+    if r.chance(1, 5) {
+        let slds: Vec<usize> = (0..zones.len()).filter(|&i| zones[i].apex.labels.len() == 3).collect();
+        let pair = slds.iter().flat_map(|&i| slds.iter().map(move |&j| (i, j))).find(|&(i, j)| {
+            i < j && zones[i].apex.labels[1..] == zones[j].apex.labels[1..]
+        });
+        if let Some((i, j)) = pair {
+            for (a, b) in [(i, j), (j, i)] {
+                let other = zones[b].apex.clone();
+                for (k, srv) in zones[a].servers.iter_mut().enumerate() {
+                    let mut ls = vec![lbl(format!("m{a}h{k}").as_bytes())];
+                    ls.extend(other.labels.iter().cloned());
+                    srv.0 = DomainName::from_labels(ls).unwrap();
+                }
+                let first = zones[a].servers[0].0.clone();
+                let s = SOA { mname: first, rname: nm("admin."), serial: 1, refresh: 2, retry: 3, expire: 4, minimum: 60 };
+                zones[a].zone = Zone::new(zones[a].apex.clone(), Some(s));
+            }
+        }
+    }
     // NS sets at each apex and in each parent; server address records in the zone owning the host name
     let n = zones.len();
     for i in 0..n {
@@ -705,7 +775,7 @@ fn gen_universe(r: &mut Rng, single_ns: bool, dual: bool) -> Universe {
         }
     }
     let glue_ttl0 = single_ns && !dual && r.chance(1, 40);
-    Universe { zones, ns_at_cut_is_referral: r.chance(1, 2), glue_ttl0 }
+    Universe { zones, ns_at_cut_is_referral: r.chance(1, 2), glue_ttl0, tc_over_udp: r.chance(1, 8) }
 }
 
 fn universe_script(u: &Universe, questions: &[Question]) -> Vec<Entry> {
@@ -715,6 +785,18 @@ fn universe_script(u: &Universe, questions: &[Question]) -> Vec<Entry> {
             for a in addrs {
                 for q in questions {
                     let m = u.serve(z, q);
+                    if u.tc_over_udp && !m.answers.is_empty() {
+                        // "does not fit a datagram": the UDP reply is truncated (TC, no records), the answer
+                        // is only available over TCP - the resolver has to retry there
+                        let mut t = m.clone();
+                        t.header.is_truncated = true;
+                        t.answers.clear();
+                        t.authority.clear();
+                        t.additional.clear();
+                        script.push(Entry { addr: *a, tcp: false, qname: q.name.clone(), qtype: u16::from(q.qtype), delay_ms: 7, reply: Reply::Msg { m: t, same_id: true } });
+                        script.push(Entry { addr: *a, tcp: true, qname: q.name.clone(), qtype: u16::from(q.qtype), delay_ms: 9, reply: Reply::Msg { m, same_id: true } });
+                        continue;
+                    }
                     script.push(Entry { addr: *a, tcp: false, qname: q.name.clone(), qtype: u16::from(q.qtype), delay_ms: 7, reply: Reply::Msg { m, same_id: true } });
                 }
             }
@@ -1057,6 +1139,8 @@ pub fn run(r: &mut Rng, n: usize, which: &str, out: &mut Out) {
             "local" => {
                 if i % 200 == 7 {
                     f11_scenario(r)
+                } else if i % 100 == 13 {
+                    alias_into_delegation_scenario(r)
                 } else if i % 3 == 2 {
                     chain_scenario(r)
                 } else {
